@@ -81,6 +81,8 @@ fn alphabet() -> Vec<Ev> {
         s(true, true, false, 0, false, Body::Truncated, 0),
         s(true, true, true, 0, false, Body::UnknownObject, 0),
         s(true, true, true, 0, false, Body::Ideal, app::iin2::NO_FUNC_CODE_SUPPORT),
+        s(true, true, false, 0, false, Body::Ideal, app::iin2::OBJECT_UNKNOWN),
+        s(true, true, true, 0, false, Body::Ideal, app::iin2::PARAMETER_ERROR),
         Ev::Sol { fir: true, fin: true, con: false, uns: true, dseq: 0, foreign: false, body: Body::Ideal, iin2: 0 },
         Ev::Silence,
     ]
@@ -570,7 +572,7 @@ pub fn check(tier: &str) -> i32 {
     }
     c.finish(
         "model_checking",
-        "for each of eight kinds of outstanding task (none, user READ, DIRECT_OPERATE, SELECT step, OPERATE step, automatic DISABLE_UNSOLICITED, start-up integrity poll, file-information request) every history up to depth 3 (4 thorough) over 21 responses (ideal; with CON; first / middle / last fragment of a series in and out of order; non-final without CON; sequence -1 / +1 / +8; foreign source; unsolicited null / data / duplicate / foreign / without CON; truncated object; unknown object; IIN2 rejection; solicited with UNS bit; silence past the response timeout) is delivered to the real MasterTask; an acceptance predicate written from the statement predicts deliveries to the handler, CONFIRM fragments and task completion; non-trivial = at least one fragment was accepted; distinct = distinct observation trace",
+        "for each of eight kinds of outstanding task (none, user READ, DIRECT_OPERATE, SELECT step, OPERATE step, automatic DISABLE_UNSOLICITED, start-up integrity poll, file-information request) every history up to depth 3 (4 thorough) over 28 responses (ideal; with CON; first / middle / last fragment of a series in and out of order; non-final without CON; sequence -1 / +1 / +8; foreign source; unsolicited null / data / duplicate / foreign / without CON; truncated object; unknown object; each of the three IIN2 rejection bits alone; solicited with UNS bit; silence past the response timeout) is delivered to the real MasterTask; an acceptance predicate written from the statement predicts deliveries to the handler, CONFIRM fragments and task completion; non-trivial = at least one fragment was accepted; distinct = distinct observation trace",
         &[
             "a malformed or mis-flagged fragment may be ignored or may fail the outstanding task, but must never complete it successfully nor reach the handler",
             "whether an accepted command / file response means success is C16's subject",
